@@ -28,6 +28,8 @@ theorem coinswap_translated_pinned : Irismod.Gen.PureCoinswap.translated =
      "AddLiquidity_guard_2",
      "AddLiquidity_guard_3",
      "AddLiquidity_guard_4",
+     "AddLiquidity_guard_5",
+     "AddLiquidity_guard_6",
      "RemoveLiquidity_irisWithdrawnAmt_1",
      "RemoveLiquidity_tokenWithdrawnAmt_1",
      "RemoveLiquidity_guard_1",
@@ -40,6 +42,7 @@ theorem coinswap_translated_pinned : Irismod.Gen.PureCoinswap.translated =
      "AddUnilateral_square_1",
      "AddUnilateral_mintLptAmt_1",
      "AddUnilateral_guard_1",
+     "AddUnilateral_guard_2",
      "RemoveUnilateral_feeNumerator_1",
      "RemoveUnilateral_feeDenominator_1",
      "RemoveUnilateral_targetTokenNumerator_1",
@@ -48,7 +51,8 @@ theorem coinswap_translated_pinned : Irismod.Gen.PureCoinswap.translated =
      "RemoveUnilateral_guard_1",
      "RemoveUnilateral_guard_2",
      "RemoveUnilateral_guard_3",
-     "RemoveUnilateral_guard_4"] := rfl
+     "RemoveUnilateral_guard_4",
+     "RemoveUnilateral_guard_5"] := rfl
 
 private theorem oneSubFee (fee : Nat) (hfee : fee ≤ D) :
     Dec_Sub LegacyOneDec ⟨(fee : Int)⟩ = some ⟨((D - fee : Nat) : Int)⟩ := by
@@ -131,12 +135,15 @@ theorem AddLiquidity_deposit_eq_model (Y dS X : Nat) (hX : X ≠ 0) :
   by_cases h2 : Y * dS / X + 1 < pow2_256 <;> csimp [h2]
 
 /-- the rejecting guards of `AddLiquidity` over these amounts, in source order -/
-theorem AddLiquidity_guards (X Y L : Nat) (mint minL dep : Int) (maxTok : GoSem.Coin) :
-    AddLiquidity_guard_2 X Y L = some (decide (X = 0 ∨ Y = 0 ∨ L = 0)) ∧
+theorem AddLiquidity_guards (X Y L : Nat) (mint minL dep : Int) (maxTok : GoSem.Coin) (std : String) :
+    AddLiquidity_guard_1 std maxTok = some (std == maxTok.denom) ∧
+    AddLiquidity_guard_2 mint minL = some (decide (mint < minL)) ∧
     AddLiquidity_guard_3 mint minL = some (decide (mint < minL)) ∧
-    AddLiquidity_guard_4 dep maxTok = some (decide (maxTok.amount < dep)) := by
-  refine ⟨?_, rfl, rfl⟩
-  unfold AddLiquidity_guard_2
+    AddLiquidity_guard_4 X Y L = some (decide (X = 0 ∨ Y = 0 ∨ L = 0)) ∧
+    AddLiquidity_guard_5 mint minL = some (decide (mint < minL)) ∧
+    AddLiquidity_guard_6 dep maxTok = some (decide (maxTok.amount < dep)) := by
+  refine ⟨rfl, rfl, rfl, ?_, rfl, rfl⟩
+  unfold AddLiquidity_guard_4
   simp only [Int_IsZero, Int.natCast_eq_zero]
   by_cases a : X = 0 <;> by_cases b : Y = 0 <;> by_cases c : L = 0 <;> simp [a, b, c]
 
@@ -205,13 +212,15 @@ theorem RemoveUnilateral_out_eq_model (T L w nn : Nat) (hw : w ≤ L + L) :
   by_cases h7 : L * L * D = 0 <;> csimp [h7]
 
 /-- the rejecting guards of the other three liquidity handlers over these amounts, in source order -/
-theorem Liquidity_guards (a b : Int) (c : GoSem.Coin) :
+theorem Liquidity_guards (a b : Int) (c : GoSem.Coin) (cp std : String) :
     RemoveLiquidity_guard_1 a b = some (decide (a < b)) ∧ RemoveLiquidity_guard_2 a b = some (decide (a < b)) ∧
     RemoveLiquidity_guard_3 a c = some (decide (a < c.amount)) ∧
     RemoveLiquidity_guard_4 c b = some (decide (c.amount < b)) ∧ RemoveLiquidity_guard_5 c b = some (decide (c.amount < b)) ∧
-    AddUnilateral_guard_1 a b = some (decide (a < b)) ∧
-    RemoveUnilateral_guard_1 a b = some (decide (a < b)) ∧ RemoveUnilateral_guard_2 a b = some (decide (a = b)) ∧
-    RemoveUnilateral_guard_3 a c = some (decide (a < c.amount)) ∧ RemoveUnilateral_guard_4 a c = some (decide (a < c.amount)) :=
-  ⟨rfl, rfl, rfl, rfl, rfl, rfl, rfl, rfl, rfl, rfl⟩
+    AddUnilateral_guard_1 c cp std = some (c.denom != cp && c.denom != std) ∧
+    AddUnilateral_guard_2 a b = some (decide (a < b)) ∧
+    RemoveUnilateral_guard_1 c cp std = some (c.denom != cp && c.denom != std) ∧
+    RemoveUnilateral_guard_2 a b = some (decide (a < b)) ∧ RemoveUnilateral_guard_3 a b = some (decide (a = b)) ∧
+    RemoveUnilateral_guard_4 a c = some (decide (a < c.amount)) ∧ RemoveUnilateral_guard_5 a c = some (decide (a < c.amount)) :=
+  ⟨rfl, rfl, rfl, rfl, rfl, rfl, rfl, rfl, rfl, rfl, rfl, rfl⟩
 
 end Irismod.Props.Tie
